@@ -20,6 +20,7 @@ import (
 	"fmt"
 	"strings"
 	"testing"
+	"unicode/utf8"
 
 	"go.starlark.net/resolve"
 	"go.starlark.net/syntax"
@@ -453,6 +454,12 @@ func nulEndsFile(text string) bool {
 
 func checkTextInner(c TextCase) error {
 	text := c.Text
+	if !utf8.ValidString(text) {
+		// a module is a UTF-8 encoded file (spec); other inputs only have to be survived
+		parseImpl(text, false)
+		vk.S.Class("text:not-utf8")
+		return nil
+	}
 	rt, rtoks, unsure, rerr := refParse(text)
 	verdict := "accept"
 	switch {
